@@ -318,15 +318,17 @@ func (s *clientSocket) sendConnectPacket(authData any) {
 		if authData != nil {
 			// `authData` is a struct, a map, or a pointer to one of them (see `setAuth`).
 			// Merge its JSON fields with the session recovery fields.
+			// (The error is reported on a new goroutine for the same reason the packet is sent on one, see below:
+			// the caller holds mutexes that the error handlers of the manager take.)
 			data, err := json.Marshal(authData)
 			if err != nil {
-				s.onError(wrapInternalError(err))
+				go s.onError(wrapInternalError(err))
 				return
 			}
 			var fields map[string]json.RawMessage
 			err = json.Unmarshal(data, &fields)
 			if err != nil {
-				s.onError(wrapInternalError(err))
+				go s.onError(wrapInternalError(err))
 				return
 			}
 			for k, v := range fields {
